@@ -60,7 +60,7 @@ theorem after_callback0 {s s1 s2 : St} {nxt : Option Nat} {ns : List Note} (h0 :
       rcases List.mem_append.mp hx with hx | hx
       · exact h0.wok.qnd x hx
       · simp only [List.mem_singleton] at hx; subst hx; exact hl h0.knd
-  obtain ⟨hok, ha, hv, heq, _, _⟩ := wake_spec (s1 := s1) (by rw [hm]; exact h0.wok.mnd) hqnd
+  obtain ⟨hok, ha, hv, heq, _⟩ := wake_spec (s1 := s1) (by rw [hm]; exact h0.wok.mnd) hqnd
     (by rw [hm, hj]; exact h0.wok.jok) hw
   rw [hm] at ha hv
   exact ⟨⟨by rw [heq.tree, ht]; exact h0.knd, by rw [heq.tree, ht]; exact h0.pgen, hok⟩, ha, hv⟩
@@ -108,14 +108,14 @@ theorem ret_inv0 {s s' : St} {nxt : Option Nat} {ns : List Note} (h0 : Inv0 s)
       rw [hname] at g1 g2 g3 g4
       split at hn
       · obtain ⟨f1, f2, f3⟩ := finishJob_spec s.members j.listing _ h0.wok.mnd g1 g2
-        cases hp : pump (finishJob s.members j.listing (if found then j.got ++ [n] else j.got)).1 s.queue nxt with
+        cases hp : pumpB s.lists.isEmpty (finishJob s.members j.listing (if found then j.got ++ [n] else j.got)).1 s.queue nxt with
         | none => rw [hp] at hn; cases hn
         | some w =>
           rw [hp] at hn
           simp only [Option.map_some, Option.some.injEq, Prod.mk.injEq] at hn
           obtain ⟨hn1, hn2⟩ := hn
           subst hn1; subst hn2
-          obtain ⟨hok, ha, hv, _, _⟩ := pump_spec s.queue _ nxt w f1 h0.wok.qnd hp
+          obtain ⟨hok, ha, hv, _, _⟩ := pumpB_spec _ s.queue _ nxt w f1 h0.wok.qnd hp
           refine ⟨⟨h0.knd, h0.pgen, hok⟩, ?_, ?_⟩
           · rw [altOk_append, f2, f3, ha]; rfl
           · rw [viewOf_append, f3, hv]
@@ -153,6 +153,19 @@ theorem ret_inv0 {s s' : St} {nxt : Option Nat} {ns : List Note} (h0 : Inv0 s)
             · intro x hx; exact hjk.todo_lst x (List.mem_of_mem_erase hx)
           · cases hn
 
+/-- a step that touched only the listings — and did not end the last one — keeps `Inv0` -/
+theorem lists_only_inv0 {s s' : St} (h0 : Inv0 s) (lo : ListsOnly s s')
+    (hl : s'.lists.isEmpty = true → s.lists.isEmpty = true) : Inv0 s' := by
+  refine ⟨?_, ?_, ⟨?_, ?_, ?_, ?_⟩⟩
+  · rw [lo.env.tree]; exact h0.knd
+  · rw [lo.env.tree]; exact h0.pgen
+  · rw [lo.members]; exact h0.wok.mnd
+  · rw [lo.queue]; exact h0.wok.qnd
+  · intro hj hf
+    rw [lo.queue]
+    exact h0.wok.idle (lo.job ▸ hj) (hl hf)
+  · rw [lo.members, lo.job]; exact h0.wok.jok
+
 theorem next_inv0 {cfg : Cfg} {s s' : St} {op : Op} {ns : List Note} (h0 : Inv0 s)
     (hn : next cfg s op = some (s', ns)) :
     Inv0 s' ∧ altOk s.members ns = true ∧ viewOf s.members ns = s'.members := by
@@ -164,11 +177,11 @@ theorem next_inv0 {cfg : Cfg} {s s' : St} {op : Op} {ns : List Note} (h0 : Inv0 
       simp only [Option.some.injEq, Prod.mk.injEq] at hn
       obtain ⟨h1, h2⟩ := hn
       subst h1; subst h2
-      obtain ⟨hmem, hque, hjob, _, _, htre, _⟩ := treeStep_fields s o
+      obtain ⟨hmem, hque, hjob, _, _, htre, _, hlis⟩ := treeStep_fields s o
       refine ⟨⟨?_, ?_, ?_⟩, by simp [altOk], by simp [viewOf, hmem]⟩
       · rw [htre]; exact tree_kids_nodup _ _ h0.knd hl
       · rw [htre]; exact tree_pgen _ _ h0.pgen
-      · rw [hmem, hque, hjob]; exact h0.wok
+      · rw [hmem, hque, hjob, hlis]; exact h0.wok
     · cases hn
   | start nxt =>
     simp only [next] at hn
@@ -202,6 +215,40 @@ theorem next_inv0 {cfg : Cfg} {s s' : St} {op : Op} {ns : List Note} (h0 : Inv0 
   | ret nxt =>
     simp only [next] at hn
     exact ret_inv0 h0 hn
+  | list nxt =>
+    simp only [next] at hn
+    split at hn
+    · cases hl : listStep cfg s nxt with
+      | none => rw [hl] at hn; cases hn
+      | some s1 =>
+        rw [hl] at hn
+        simp only [Option.map_some, Option.some.injEq, Prod.mk.injEq] at hn
+        obtain ⟨h1, h2⟩ := hn
+        subst h1; subst h2
+        obtain ⟨lo, hle⟩ := listStep_shape hl
+        exact ⟨lists_only_inv0 h0 lo hle, by simp [altOk], by simp [viewOf, lo.members]⟩
+    · cases hn
+  | lserve i =>
+    simp only [next] at hn
+    split at hn
+    · cases hl : lserveStep s i with
+      | none => rw [hl] at hn; cases hn
+      | some s1 =>
+        rw [hl] at hn
+        simp only [Option.map_some, Option.some.injEq, Prod.mk.injEq] at hn
+        obtain ⟨h1, h2⟩ := hn
+        subst h1; subst h2
+        obtain ⟨lo, hle⟩ := lserveStep_shape hl
+        exact ⟨lists_only_inv0 h0 lo hle, by simp [altOk], by simp [viewOf, lo.members]⟩
+    · cases hn
+  | lret i nxt =>
+    simp only [next] at hn
+    split at hn
+    · rcases lretStep_cases hn with ⟨lo, hle, hns⟩ | ⟨s1, lo, hw⟩
+      · subst hns
+        exact ⟨lists_only_inv0 h0 lo hle, by simp [altOk], by simp [viewOf, lo.members]⟩
+      · exact after_callback0 h0 lo.members lo.job lo.env.tree (Or.inl lo.queue) hw
+    · cases hn
 
 theorem exec_inv0 (cfg : Cfg) (ops : List Op) : ∀ (s : St), Inv0 s →
     Inv0 (exec cfg s ops).1 ∧ altOk s.members (exec cfg s ops).2 = true ∧
